@@ -8,6 +8,12 @@ TRUSTED_BASE = [
     "hand-modelled structure of the Go functions (tied by the correspondence run, not verified)",
 ]
 
+CACHE_RULE = ("insertion histories (4-30 steps, capacity 1/2/3/4/5/8/50) over 4 authors x 12 kinds (regular, 0, 3, 10002, ephemeral, addressable with/without/duplicate/"
+              "valueless d, deletion requests with 1/2/3-element e/a tags referencing past, future, own, foreign, self and other requests) x created_at 1..12 (many ties) "
+              "with re-offered events and new versions of existing addresses at -1/0/+1 s; after EVERY insertion the flag, Len() and the full listing are recorded, then 1-3 filter "
+              "lists (aimed at the content: ids/authors/kinds/#x/since/until/limit 0..100, empty lists, several filters, non-nil empty tag map); non-trivial = every add and every "
+              "non-empty find; distinct = distinct output line")
+
 PROPS = {
     "C02": {
         "lean_modules": ["MocProps.C02"],
@@ -97,5 +103,51 @@ PROPS = {
         "level_note": "Trusted: Lean kernel + standard axioms; go2lean; harness/driver; net/http header canonicalisation; encoding/json (numbers reach the model as "
                       "integer literals classified by the harness).",
         "assumptions": ["headers clause read as applying to a configured document (a mux without one answers `{}`)", "document equality modulo omitempty (empty == absent)"],
+    },
+    "C03": {
+        "lean_modules": ["MocProps.C03"], "theorem_files": ["MocProps/C03.lean"],
+        "gen_groups": ["Cache", "Matcher"], "harness_prop": "cache", "driver_prop": "cache", "stateful": True,
+        "monitors": ["query"],
+        "n_quick": 60000, "n_thorough": 600000, "thorough_seeds": 3,
+        "rule": CACHE_RULE,
+        "level_text": "Partial so far: theorems cover the ordered-scan path (scanLoop_eq: exactly the first `limit` NIP-01 matches of the tree walk, for every filter, store and "
+                      "starting count) and the index path's candidate test (idxCandidate_eq: intersection of the index posting sets = the id/author/kind/#x conditions). "
+                      "The top-k loop, the merge over filters and index maintenance are tied by the step-by-step differential run (every query answer after every insertion is "
+                      "compared with the model, 0 differences required) and judged by the property-level monitor `findAllowed` (valid top-limit per filter, merged, no duplicates, "
+                      "non-increasing created_at, every element retained). Path independence is exercised by filters that take either path over the same content.",
+        "level_note": "Trusted: Lean kernel + standard axioms; go2lean; harness/driver; igrmk/treemap ordering and Go map iteration are modelled (derived views of the event list), "
+                      "not verified; filters have distinct single-byte tag names and events no empty tag (what Valid guarantees).",
+        "assumptions": ["equal created_at at a limit boundary: any valid top-n accepted by the monitor (the model itself is exact: ties broken by id)"],
+    },
+    "C04": {
+        "lean_modules": ["MocProps.C04"], "theorem_files": ["MocProps/C04.lean"],
+        "gen_groups": ["Cache"], "harness_prop": "cache", "driver_prop": "cache", "stateful": True,
+        "monitors": ["retention"],
+        "n_quick": 60000, "n_thorough": 600000, "thorough_seeds": 3,
+        "rule": CACHE_RULE,
+        "level_text": "Full for the retention core: for EVERY insertion history and capacity >= 0 the store holds at most capacity events, one per key (id / address) and no "
+                      "ephemeral event (retention_all_histories, by induction with invariant Inv1), ids are pairwise distinct for id-injective histories (no_id_twice), nothing but "
+                      "the offered event enters (add_subset), a not-new insertion changes nothing (not_new_no_change), the flag is characterised exactly (flag_iff: not suppressed and "
+                      "first-or-strictly-newer of its key), newer displaces / older never does (newer_displaces), ephemeral events are never stored (ephemeral_never_retained). "
+                      "Comparisons, kind ranges and the capacity test are regenerated from the source. Tree/index maintenance is tied by the step-by-step differential run; the "
+                      "step relation `stepAllowed` is evaluated on the implementation's successive listings.",
+        "level_note": "Trusted: Lean kernel + standard axioms; go2lean; harness/driver; the creation-time tree and the index are derived views in the model (their maintenance is "
+                      "runtime-validated after every step).",
+        "assumptions": ["equal created_at on one address: either version may be retained (model: first arrived)", "for ephemeral events the returned flag is not constrained by the monitor"],
+    },
+    "C05": {
+        "lean_modules": ["MocProps.C05"], "theorem_files": ["MocProps/C05.lean"],
+        "gen_groups": ["Cache"], "harness_prop": "cache", "driver_prop": "cache", "stateful": True,
+        "monitors": ["deletion"],
+        "n_quick": 60000, "n_thorough": 600000, "thorough_seeds": 3,
+        "rule": CACHE_RULE,
+        "level_text": "Full for the stated clauses on the model: an insertion never removes an event of another author except as the capacity victim, which has the smallest "
+                      "created_at (author_isolation, oldestOf_min; hypothesis: another author's event is not stored under the offered event's key — keys contain the author / ids are "
+                      "hashes); a deletion request removes the events of its own author it references by key or by id (deleteByKind5_removes) and nothing of other authors "
+                      "(deleteByKind5_isolated); its references are registered (k5_refs_registered) and registered events cannot be inserted again (blocked_while_deletion_retained). "
+                      "Registry clean-up when a request leaves is tied by the differential run (re-insertion after eviction of the request is generated).",
+        "level_note": "Trusted: Lean kernel + standard axioms; go2lean; harness/driver. Address references to replaceable events (kind:pubkey vs kind:pubkey:) are left open by the "
+                      "statement and accepted either way by the monitor.",
+        "assumptions": ["key strings of different slots differ (hex ids/pubkeys)"],
     },
 }
